@@ -1,6 +1,8 @@
 package rules
 
 import (
+	"fmt"
+	"os"
 	"go/constant"
 	"go/token"
 	"go/types"
@@ -507,10 +509,19 @@ func HelperClosure(fn *ssa.Function, depth int) []*ssa.Function {
 func (c *Ctx) EveryCallSite(fn *ssa.Function, pred func(site ssa.CallInstruction) bool) bool {
 	n := c.P.CHA().Nodes[fn]
 	if n == nil || len(n.In) == 0 {
+		if os.Getenv("HV_DEBUG") != "" {
+			fmt.Fprintf(os.Stderr, "EveryCallSite(%s): no callers (node=%v)\n", fn.Name(), n != nil)
+		}
 		return false
 	}
 	for _, e := range n.In {
+		if e.Site != nil && e.Site.Common().StaticCallee() == nil && !e.Site.Common().IsInvoke() && !c.addressTaken()[fn] {
+			continue // CHA pairs every call of a function value with every function of that signature; fn is never used as a value
+		}
 		if e.Site == nil || e.Site.Common().StaticCallee() != fn {
+			if os.Getenv("HV_DEBUG") != "" {
+				fmt.Fprintf(os.Stderr, "EveryCallSite(%s): non-static caller %v\n", fn.Name(), e.Caller.Func)
+			}
 			return false
 		}
 		if !pred(e.Site) {
@@ -557,4 +568,32 @@ func (c *Ctx) RootParam(v ssa.Value, root *ssa.Function, depth int) *ssa.Paramet
 		return nil
 	}
 	return res
+}
+
+// addressTaken: the functions that occur as a value (operand other than the callee of a static call) anywhere in the
+// program — only those can be the target of a call through a function value.
+func (c *Ctx) addressTaken() map[*ssa.Function]bool {
+	if c.addrTaken != nil {
+		return c.addrTaken
+	}
+	c.addrTaken = map[*ssa.Function]bool{}
+	for fn := range c.P.AllFuncs() {
+		for _, b := range fn.Blocks {
+			for _, in := range b.Instrs {
+				var callee *ssa.Value
+				if ci, ok := in.(ssa.CallInstruction); ok && !ci.Common().IsInvoke() {
+					callee = &ci.Common().Value
+				}
+				for _, op := range in.Operands(nil) {
+					if op == callee || *op == nil {
+						continue
+					}
+					if f, ok := (*op).(*ssa.Function); ok {
+						c.addrTaken[f] = true
+					}
+				}
+			}
+		}
+	}
+	return c.addrTaken
 }
